@@ -5,6 +5,12 @@ the properties as the property texts state them.  Each returns a list of problem
 (dict(prop=..., step=..., why=...)); the caller attributes them to known-finding classes."""
 import re
 
+def tick_lt(a, b):
+    """a is older than b in the wrapping order of RepliconTick (difference below half the range)"""
+    d = (b - a) % 2**32
+    return 0 < d < 2**31
+
+
 EVERY_TICK = {0, 1, 3}
 ONCE = {2}
 
@@ -530,7 +536,7 @@ class Trace:
                         st_ = stamps.get((c, sq))
                         if ty != "SEI" and st_ is not None and c in upd_sent and st_ in upd_sent[c] and upd_applied[c] <= upd_sent[c].index(st_):
                             self.add("C04", i, "event %d handed to client %d logic before the update message of tick %d it depends on was applied" % (sq, c, st_))
-                        if ty != "SEI" and st_ is not None and ut_now < st_:
+                        if ty != "SEI" and st_ is not None and (tick_lt(ut_now, st_) if upd_applied.get(c) else ut_now < st_):
                             self.add("C04", i, "event %d handed to client %d logic at update tick %d although it was sent with tick %d" % (sq, c, ut_now, st_))
                         if em["ent"] is not None and (len(parts) < 3 or parts[2] != em["ent"]):
                             self.add("C04", i, "event %d delivered to client %d with entity %s, the server meant %s" % (sq, c, parts[2] if len(parts) > 2 else None, em["ent"]))
@@ -579,7 +585,7 @@ class Trace:
                     elif len(extra) > len(ses["extras"]):
                         self.add("C03", i, "client %d has a replicated entity that no server entity maps to (zombie): %r" % (c, extra))
                         ses["extras"] = list(extra)
-                    if ses["ut"] is not None and ut < ses["ut"]:
+                    if ses["ut"] is not None and ses["ut"] != 0 and tick_lt(ut, ses["ut"]):
                         self.add("C03", i, "client %d update tick moved backwards %d -> %d" % (c, ses["ut"], ut))
                     moved = ses["ut"] != ut
                     ses["ut"] = ut
@@ -617,7 +623,7 @@ class Trace:
                             self.add("C03", i, "client %d entity %d is replicated but has no confirm history" % (c, e))
                             continue
                         prev = ses["last"].get(e)
-                        if prev is not None and lt < prev:
+                        if prev is not None and prev != 0 and tick_lt(lt, prev):
                             self.add("C02", i, "client %d entity %d confirmed tick moved backwards %d -> %d" % (c, e, prev, lt))
                         ses["last"][e] = lt
                         s2 = snapshots.get((epoch, lt, c))
